@@ -11,6 +11,11 @@ claimed = {
    note="Trusts harness/ref/e5 as the reading of SEMI E5; F4 NaN payloads are compared as NaN only. Known finding (list with EmptyItem child) is reported as KNOWN-FINDING.",
    technique="differential runtime monitor: reference E5 encoder + accessor-level oracle over generated constructor recipes; race detector/checkptr slice",
    design="DESIGN.md §5 C01"),
+ "C02": dict(level="exploration",
+   text="Runtime monitoring of secs2.Decode/DecodeOwned on ~1.2M (quick) / ~20M (thorough) byte strings per run: exhaustive short inputs, systematic truncations/mutations/length-field rewrites of generated valid encodings, length-claim bombs, deep nesting, random bytes. An independent total E5 reference decoder decides accept/reject and the decoded values (compared through every accessor), re-encoding must equal the consumed prefix, the two entry points must agree, and an allocation meter bounds TotalAlloc per input. Half of the inputs run under the race build (checkptr).",
+   note="Trusts harness/ref/e5 as the reading of the SEMI E5 item grammar (depth limit 64). The allocation constant (96 B per input byte + 4 KiB per call + 256 KiB slack per metered batch) is a stated assumption for 'constant multiple of the input length'.",
+   technique="differential runtime monitor: total reference E5 decoder + accessor-level oracle + allocation meter over exhaustive-short/mutated/bomb inputs; checkptr via -race build",
+   design="DESIGN.md §5 C02"),
 }
 
 hooks_commits = []
